@@ -378,16 +378,62 @@ def _pairing(ctx: Ctx, fom: ClassInfo, le: ClassInfo) -> None:
                     c.comparators[0], ast.Constant) and \
                     c.comparators[0].value is None
                 off = isinstance(c, ast.Constant) and c.value is False
+                unknown_flag = False
+                if not enabled and isinstance(c, ast.Name):
+                    # a flag set branch by branch together with the
+                    # collections: True exactly where a collection is
+                    # created, False exactly where it is None
+                    def _branch_vals(stmts: list[ast.stmt]) -> dict[str, Any]:
+                        out_: dict[str, Any] = {}
+                        for st_ in stmts:
+                            if isinstance(st_, (ast.Assign, ast.AnnAssign)) \
+                                    and getattr(st_, "value", None) \
+                                    is not None:
+                                tg_ = st_.targets[0] if isinstance(
+                                    st_, ast.Assign) else st_.target
+                                if isinstance(tg_, ast.Name):
+                                    out_[tg_.id] = st_.value
+                        return out_
+                    for if_ in ast.walk(m.node):
+                        if not (isinstance(if_, ast.If) and if_.orelse):
+                            continue
+                        a_, b_ = _branch_vals(if_.body), _branch_vals(
+                            if_.orelse)
+                        if c.id in a_ and c.id in b_ and any(
+                                h_ in a_ and h_ in b_ for h_ in held):
+                            h_ = next(h for h in held
+                                      if h in a_ and h in b_)
+
+                            def _is_none(x: ast.expr) -> bool:
+                                return isinstance(
+                                    x, ast.Constant) and x.value is None
+
+                            def _truth(x: ast.expr) -> Any:
+                                return x.value if isinstance(
+                                    x, ast.Constant) and isinstance(
+                                    x.value, bool) else None
+                            pa, pb = _truth(a_[c.id]), _truth(b_[c.id])
+                            if pa is None or pb is None:
+                                continue
+                            enabled = (pa == (not _is_none(a_[h_]))) and (
+                                pb == (not _is_none(b_[h_])))
+                            csrc += (f" (= {h_} is not None, branch by "
+                                     "branch)" if enabled else "")
+                    if not enabled:
+                        unknown_flag = True
                 ok = (real and enabled) or (not real and off)
                 # same straight-line block
                 blocks = [b for b in _blocks(m.node)
                           if eqs[0] in b and cols[0] in b]
                 ok = ok and bool(blocks)
                 detail += (f"equations := {ast.unparse(e)[:50]}, collect "
-                           f":= {csrc}" + ("" if ok else
-                                           " - data could be collected from "
-                                           "model runs, or real runs would "
-                                           "not be collected"))
+                           f":= {csrc}" + ("" if ok else (
+                               " - how this flag relates to the collections "
+                               "is not recognised" if unknown_flag and bool(
+                                   blocks) else
+                               " - data could be collected from "
+                               "model runs, or real runs would "
+                               "not be collected")))
             else:
                 detail += (f"{len(eqs)} assignment(s) of the equations but "
                            f"{len(cols)} of the collect flag")
@@ -1140,9 +1186,9 @@ def _assembly(ctx: Ctx, fom: ClassInfo, le: ClassInfo) -> None:
                 + ("the mean of the J values" if want == "mean" else
                    "exp(mean(log(J + 1))) - 1"))
     tail = body[body.index(loop) + 1:]
-    agg = [s for s in tail if isinstance(s, ast.Assign) and isinstance(
-        s.value, ast.Call) and ast.unparse(s.value.func) ==
-        "self.sum_up_results"]
+    agg = [s for s in tail if isinstance(s, (ast.Assign, ast.AnnAssign))
+           and isinstance(s.value, ast.Call) and ast.unparse(s.value.func)
+           == "self.sum_up_results"]
     res_field = None
     if len(agg) == 1 and len(agg[0].value.args) == 1 and isinstance(
             agg[0].value.args[0], ast.Name):
@@ -1164,7 +1210,8 @@ def _compaction(ctx: Ctx, fom: ClassInfo) -> None:
     ctx.need(gd is not None, "FigureOfMerit.get_differentials")
     body = func_body(gd)
     alias: dict[str, str] = {}
-    for s in body:
+    all_stmts = [x for x in ast.walk(gd.node) if isinstance(x, ast.stmt)]
+    for s in all_stmts:
         if isinstance(s, (ast.Assign, ast.AnnAssign)) and s.value is not None:
             tg = s.targets[0] if isinstance(s, ast.Assign) else s.target
             f = _self_attr(s.value)
@@ -1178,7 +1225,7 @@ def _compaction(ctx: Ctx, fom: ClassInfo) -> None:
     else:
         sc_l, df_l = inv["__collection_sc"], inv["__collection_df"]
         cat: dict[str, str] = {}
-        for s in body:
+        for s in all_stmts:
             if isinstance(s, (ast.Assign, ast.AnnAssign)) and isinstance(
                     s.value, ast.Call) and ast.unparse(
                     s.value.func) in ("np.concatenate", "np.vstack") and \
@@ -1256,15 +1303,49 @@ def _compaction(ctx: Ctx, fom: ClassInfo) -> None:
         shorts = [r for r in ast.walk(gd.node) if isinstance(r, ast.Return)
                   and isinstance(r.value, ast.Tuple) and all(
                       isinstance(e, ast.Subscript) for e in r.value.elts)]
-        for r in shorts:
-            got = [ast.unparse(e).replace(" ", "") for e in r.value.elts]
-            if got != [f"{sc_l}[0]", f"{df_l}[0]"]:
-                problems.append(f"the single-chunk shortcut returns {got}")
-            par = next((s for s in body if isinstance(s, ast.If)
-                        and r in s.body), None)
-            tsrc = ast.unparse(par.test).replace(" ", "") if par else ""
-            if tsrc not in (f"len({sc_l})==1", f"len({df_l})==1",
-                            f"1==len({sc_l})"):
+        # decided path by path (locals inlined): a path that returns the
+        # first elements carries the condition len(collection) == 1
+        from sa.pathinline import paths as _paths
+
+        def _one_chunk(t: ast.expr, truth: bool) -> bool | None:
+            while isinstance(t, ast.UnaryOp) and isinstance(t.op, ast.Not):
+                t, truth = t.operand, not truth
+            if isinstance(t, ast.Compare) and len(t.ops) == 1 and isinstance(
+                    t.ops[0], (ast.Eq, ast.NotEq)):
+                a_, b_ = t.left, t.comparators[0]
+                if isinstance(a_, ast.Constant):
+                    a_, b_ = b_, a_
+                if isinstance(b_, ast.Constant) and b_.value == 1 and \
+                        isinstance(a_, ast.Call) and ast.unparse(
+                        a_.func) == "len" and len(a_.args) == 1 and \
+                        _self_attr(a_.args[0]) in ("__collection_sc",
+                                                   "__collection_df"):
+                    return truth == isinstance(t.ops[0], ast.Eq)
+            return None
+        try:
+            gpaths = _paths(body) if shorts or any(
+                isinstance(x, ast.Return) for x in ast.walk(gd.node)) else []
+        except ValueError:
+            gpaths = []
+            problems.append("too many paths: the single-chunk shortcut is "
+                            "not recognised")
+        for q in gpaths:
+            ret = next((e for e in q.events if e.kind == "return"), None)
+            if ret is None or not isinstance(ret.value, ast.Tuple) or not \
+                    all(isinstance(e, ast.Subscript)
+                        for e in ret.value.elts):
+                continue
+            got = [(_self_attr(e.value), ast.unparse(e.slice))
+                   for e in ret.value.elts]
+            if got != [("__collection_sc", "0"), ("__collection_df", "0")]:
+                problems.append("the single-chunk shortcut returns "
+                                f"{[ast.unparse(e) for e in ret.value.elts]}")
+            dec = [d for d in (_one_chunk(t, tr) for t, tr in q.guards)
+                   if d is not None]
+            if not dec:
+                problems.append("the condition of the single-chunk shortcut "
+                                "is not recognised")
+            elif not all(dec):
                 problems.append("the single-chunk shortcut is not taken "
                                 "exactly when one chunk is stored")
     ctx.ob("D11.8", gd, gd.node, not problems,
